@@ -188,12 +188,15 @@ class Monitor:
                 out = orig(self_, atomname, newcoords, *a, **k)
                 new = [x for x in self_.atoms if id(x) not in before]
                 caller_frame = sys._getframe(1)
+                present_before = [a_.name for a_ in self_.atoms if id(a_) in before]
                 for x in new:
                     fit = mon.fits[-1] if mon.fits and tuple(map(float, newcoords)) == mon.fits[-1]["out"] and mon.fit_calls <= mon.max_f else None
                     pairing = None
                     if fit is not None and caller_frame.f_code.co_name in ("repair_heavy", "add_hydrogens"):
                         pairing = mon.pair_fit(self_, fit, caller_frame.f_locals.get("self"))
-                    mon.created.append({"atom": x, "name": atomname, "residue": self_, "coords": tuple(map(float, newcoords)), "fit": fit, "caller": caller_frame.f_code.co_name, "pairing": pairing})
+                    mon.created.append({"atom": x, "name": atomname, "residue": self_, "coords": tuple(map(float, newcoords)), "fit": fit, "caller": caller_frame.f_code.co_name, "pairing": pairing,
+                                        "present": present_before + (["N+1"] if getattr(self_, "peptide_n", None) is not None else []) + (["C-1"] if getattr(self_, "peptide_c", None) is not None else []),
+                                        "resname": self_.name, "patches": list(getattr(self_, "patches", []) or [])})
                     if original is not None:
                         mon.flip_alias[id(x)] = original
                 return out
